@@ -204,7 +204,10 @@ func TestC10Large(t *testing.T) {
 }
 
 // TestC10HeldBack: see heldBackHistories.
-func TestC10HeldBack(t *testing.T) { runHeldBack(t, hC10, "TestC10", propC10) }
+func TestC10HeldBack(t *testing.T) {
+	runHeldBack(t, hC10, "TestC10", propC10)
+	runLongEvents(t, hC10, "TestC10", propC10)
+}
 
 func TestC10Regress(t *testing.T) { hx.Regress(t, hC10, "TestC10", propC10) }
 
